@@ -105,6 +105,7 @@ fn main() {
             }
         }
         "deep" => props::c07::deep_child(&args[2..]),
+        "pipe2m" => props::c03::pipe_child(&args[2..]),
         "check" => cmd_check(&args[2..]),
         "replay" => cmd_replay(&args[2..]),
         other => {
